@@ -903,6 +903,8 @@ impl Simulator {
             // VERYL_AOT_C_VALIDATE=1: dual-run paths and diff.  Default-off.
             let validate = self.ir.aot_c_validate;
 
+            #[cfg(veryl_verif)]
+            crate::verif::set_kind(crate::verif::KIND_EVENT);
             if !validate {
                 match whole.try_dispatch(ff_ptr, comb_ptr, log_ptr) {
                     DispatchOutcome::Done => true,
